@@ -28,6 +28,13 @@ pub(crate) fn compute_new_worker_query(
     let resource_map = core.resource_map().create_resource_id_map();
     let mut fake_workers = Vec::new();
     let now = std::time::Instant::now();
+    // With the cargo feature `verif`, the clock can be substituted by a simulation
+    #[cfg(feature = "verif")]
+    let now = if crate::verif::sim_clock_active() {
+        crate::verif::now()
+    } else {
+        now
+    };
 
     queries.iter().for_each(|query| {
         for _ in 0..query.max_sn_workers {
